@@ -8,7 +8,7 @@ Hand-written model of the option LOADER of insights/client/config.py (C16); the 
   config.py:544-586  _load_env           -> `envDict`
   config.py:588-625  _load_command_line  -> `cliDict`  (argparse itself is platform: the model gets
                                             the switches as (destination, optional argument) pairs)
-  config.py:627-666  _load_config_file   -> `fileDict` (RawConfigParser is platform: the model gets the
+  config.py:627-666  _load_config_file   -> `fileDict` (ConfigParser.RawConfigParser — the translator pins that constructor, `fileParser` — is platform: NO interpolation; the model gets the RAW
                                             items of the section, keys already lower-cased)
   config.py:667-678  load_all            -> `preImply` (the four updates) then `finish` (imply, validate)
   config.py:881-919  _determine_filename_and_extension -> `detMeth` / `detRaises` (instantiates `env.meth`)
